@@ -70,6 +70,8 @@ func genData(r *vrt.Rand, class string, n int) []float64 {
 		for i := range x {
 			x[i] = float64(r.Range(-65536, 65536)) / 1024
 		}
+	case clsRuns:
+		return genRuns(r, n)
 	}
 	return x
 }
@@ -136,6 +138,74 @@ func genWeights(r *vrt.Rand, kind string, n int) []float64 {
 		w[r.Intn(n)] = float64(r.Range(1, 3))
 	}
 	return w
+}
+
+// cross returns the (class, kind) pair of case ci so that EVERY combination
+// of the two lists occurs (indexing both lists by ci modulo their lengths
+// only visits combinations compatible with gcd(len, len) and silently drops
+// the rest, e.g. "ties with nil weights").
+func cross(ci int, classes, kinds []string) (class, kind string) {
+	k := ci % (len(classes) * len(kinds))
+	return classes[k%len(classes)], kinds[k/len(classes)]
+}
+
+// distinct returns the distinct values of the sorted slice x.
+func distinct(x []float64) []float64 {
+	var d []float64
+	for i, v := range x {
+		if i == 0 || v != x[i-1] {
+			d = append(d, v)
+		}
+	}
+	return d
+}
+
+// qGrid returns evaluation points for functions of a threshold on the sorted
+// sample x: every distinct sample value (at most maxDistinct of them, always
+// including the extremes), +-1 ulp around each, a point between each pair of
+// neighbours, and points below the minimum and above the maximum.
+func qGrid(r *vrt.Rand, x []float64, maxDistinct int) []float64 {
+	d := distinct(x)
+	if len(d) > maxDistinct {
+		keep := []float64{d[0], d[len(d)-1]}
+		for len(keep) < maxDistinct {
+			keep = append(keep, d[r.Intn(len(d))])
+		}
+		sort.Float64s(keep)
+		d = distinct(keep)
+	}
+	span := math.Max(d[len(d)-1]-d[0], math.Max(math.Abs(d[0]), 1e-300))
+	qs := []float64{d[0] - span, d[0] - span*r.Float64(), d[len(d)-1] + span*r.Float64(), d[len(d)-1] + span}
+	for i, v := range d {
+		qs = append(qs, v, math.Nextafter(v, math.Inf(-1)), math.Nextafter(v, math.Inf(1)))
+		if i+1 < len(d) {
+			qs = append(qs, v+(d[i+1]-v)*r.Float64())
+		}
+	}
+	out := qs[:0]
+	for _, q := range qs {
+		if isFinite(q) {
+			out = append(out, q)
+		}
+	}
+	sort.Float64s(out)
+	return out
+}
+
+const clsRuns = "tie-runs" // sorted runs of repeated values: ties at the minimum, in the interior and at the maximum
+
+func genRuns(r *vrt.Rand, n int) []float64 {
+	x := make([]float64, 0, n)
+	v := float64(r.Range(-8, 8)) / 4
+	for len(x) < n {
+		run := r.PickInt(1, 1, 2, 3, 5, 9)
+		for k := 0; k < run && len(x) < n; k++ {
+			x = append(x, v)
+		}
+		v += float64(r.Range(1, 6)) / 4
+	}
+	r.Shuffle(len(x), func(i, j int) { x[i], x[j] = x[j], x[i] })
+	return x
 }
 
 func hasZero(w []float64) bool {
